@@ -8,6 +8,7 @@ import (
 	"fmt"
 	"reflect"
 	"strings"
+	"sync/atomic"
 
 	jsonv2 "github.com/go-json-experiment/json"
 	"github.com/go-json-experiment/json/jsontext"
@@ -15,6 +16,7 @@ import (
 
 	"verif/internal/enum"
 	"verif/internal/evid"
+	"verif/internal/typeuniv"
 )
 
 // ---- the reference model: a map from option key to (value, present) ----
@@ -539,6 +541,83 @@ func v1v2(r *evid.Run, ks []key) {
 	r.Bound("v1 == v2 + DefaultOptionsV1 on %d values and %d texts; DefaultOptionsV2 cancels every legacy option (GetOption and behaviour)", len(vals), len(texts))
 }
 
+// universe: the v1/v2 equalities, DefaultOptionsV2 cancellation and option irrelevance over the generated type universe.
+func universe(r *evid.Run) {
+	cfg := typeuniv.Cfg{Depth: 1, NoInvalid: true}
+	if r.Tier == "thorough" {
+		cfg = typeuniv.Cfg{Depth: 2, NoInvalid: true, MaxPerLevel: 60}
+	}
+	ts := typeuniv.Universe(cfg)
+	unmarshalOnly := []jsonv2.Options{jsonv2.RejectUnknownMembers(true), jsonv2.WithUnmarshalers(uA)}
+	marshalOnly := []jsonv2.Options{jsonv2.Deterministic(true), jsonv2.FormatNilSliceAsNull(true), jsonv2.FormatNilMapAsNull(true), jsonv2.OmitZeroStructFields(true), jsonv2.WithMarshalers(mA),
+		jsontext.EscapeForHTML(true), jsontext.EscapeForJS(true), jsontext.PreserveRawStrings(true), jsontext.CanonicalizeRawInts(true), jsontext.CanonicalizeRawFloats(true), jsontext.ReorderRawObjects(true),
+		jsontext.SpaceAfterColon(true), jsontext.SpaceAfterComma(true), jsontext.Multiline(true), jsontext.WithIndent("  "), jsontext.WithIndentPrefix(" ")}
+	var same, errs atomic.Int64
+	enum.Parallel(r, len(ts), func(w *enum.Worker) func(int) {
+		var cur Case
+		w.Describe = func() any { return cur }
+		var n int64
+		w.Done = func() { r.Evaluations.Add(n); r.Nontrivial.Add(n) }
+		return func(u int) {
+			t := ts[u]
+			bad := func(vi int, what string) {
+				cs := Case{Part: "universe", Note: fmt.Sprintf("%s value #%d", typeuniv.Describe(t), vi)}
+				r.Violation(fmt.Sprintf("c19|universe|%s|%d|%.40s", typeuniv.Describe(t), vi, what), what, cs, nil)
+			}
+			for vi, rv := range typeuniv.Domain(t, true) {
+				cur = Case{Part: "universe", Note: fmt.Sprintf("%s value #%d", typeuniv.Describe(t), vi)}
+				v := rv.Interface()
+				n++
+				b1, e1 := jsonv1.Marshal(v)
+				b2, e2 := jsonv2.Marshal(v, jsonv1.DefaultOptionsV1())
+				if (e1 == nil) != (e2 == nil) || !bytes.Equal(b1, b2) {
+					bad(vi, fmt.Sprintf("v1.Marshal = %s (%v) but v2.Marshal with DefaultOptionsV1 = %s (%v)", b1, e1, b2, e2))
+				}
+				b3, e3 := jsonv2.Marshal(v, jsonv1.DefaultOptionsV1(), jsonv2.DefaultOptionsV2(), jsonv2.Deterministic(true))
+				b4, e4 := jsonv2.Marshal(v, jsonv2.Deterministic(true))
+				if (e3 == nil) != (e4 == nil) || !bytes.Equal(b3, b4) {
+					bad(vi, fmt.Sprintf("Marshal with DefaultOptionsV1 then DefaultOptionsV2 = %s (%v) but plain v2 = %s (%v)", b3, e3, b4, e4))
+				}
+				for i, o := range unmarshalOnly {
+					if b5, e5 := jsonv2.Marshal(v, jsonv2.Deterministic(true), o); (e5 == nil) != (e4 == nil) || !bytes.Equal(b5, b4) {
+						bad(vi, fmt.Sprintf("unmarshal-only option #%d changed Marshal: %s (%v) vs %s (%v)", i, b5, e5, b4, e4))
+					}
+				}
+				if e1 != nil || e4 != nil {
+					errs.Add(1)
+					continue
+				}
+				// decode side, on both spellings of the value
+				for _, text := range [][]byte{b1, b4} {
+					p1, p2, p3, p4 := reflect.New(t), reflect.New(t), reflect.New(t), reflect.New(t)
+					u1 := jsonv1.Unmarshal(text, p1.Interface())
+					u2 := jsonv2.Unmarshal(text, p2.Interface(), jsonv1.DefaultOptionsV1())
+					if (u1 == nil) != (u2 == nil) || (u1 == nil && !reflect.DeepEqual(p1.Elem().Interface(), p2.Elem().Interface())) {
+						bad(vi, fmt.Sprintf("v1.Unmarshal(%s) = %v (%v) but v2.Unmarshal with DefaultOptionsV1 = %v (%v)", text, p1.Elem(), u1, p2.Elem(), u2))
+					}
+					u3 := jsonv2.Unmarshal(text, p3.Interface(), jsonv1.DefaultOptionsV1(), jsonv2.DefaultOptionsV2())
+					u4 := jsonv2.Unmarshal(text, p4.Interface())
+					if (u3 == nil) != (u4 == nil) || !reflect.DeepEqual(p3.Elem().Interface(), p4.Elem().Interface()) {
+						bad(vi, fmt.Sprintf("Unmarshal(%s) with DefaultOptionsV1 then DefaultOptionsV2 = %v (%v) but plain v2 = %v (%v)", text, p3.Elem(), u3, p4.Elem(), u4))
+					}
+					for i, o := range marshalOnly {
+						p5 := reflect.New(t)
+						u5 := jsonv2.Unmarshal(text, p5.Interface(), o)
+						if (u5 == nil) != (u4 == nil) || !reflect.DeepEqual(p5.Elem().Interface(), p4.Elem().Interface()) {
+							bad(vi, fmt.Sprintf("marshal/encode-only option #%d changed Unmarshal(%s): %v (%v) vs %v (%v)", i, text, p5.Elem(), u5, p4.Elem(), u4))
+						}
+					}
+					n += 3
+				}
+				same.Add(1)
+			}
+			w.Beat()
+		}
+	})
+	r.Outcomes(map[string]int64{"universe values compared on both sides (marshal succeeded)": same.Load(), "universe values whose marshal fails identically": errs.Load()})
+	r.Bound("universe: %d generated types (depth %d) x their value domains: v1.Marshal/Unmarshal == v2 + DefaultOptionsV1, DefaultOptionsV1 followed by DefaultOptionsV2 == plain v2, %d unmarshal-only options never change Marshal, %d marshal/encode-only options never change Unmarshal", len(ts), cfg.Depth, len(unmarshalOnly), len(marshalOnly))
+}
+
 func replayCase(cs Case) string {
 	if cs.Part != "algebra" {
 		return ""
@@ -578,7 +657,7 @@ func Run(r *evid.Run) {
 	as := atoms()
 	full, sub := 2, 3
 	if r.Tier == "thorough" {
-		full, sub = 3, 4
+		full, sub = 3, 5
 	}
 	// sub-alphabet: first 14 boolean options (true only for odd, both for even) + non-boolean atoms
 	var subAlpha []atom
@@ -654,4 +733,5 @@ func Run(r *evid.Run) {
 	irrelevance(r)
 	scoping(r, ks)
 	v1v2(r, ks)
+	universe(r)
 }
